@@ -284,15 +284,34 @@ fn tri<T: Clone>(t: &mut Tape, default: T, edges: &[T], uniform: impl FnOnce(&mu
     }
 }
 
+/// A magnitude in [0, hi]: uniform, or (30 %) log-uniform down to 1e-5 x hi - settings that are
+/// "almost off" are as legal as any other.
+fn magnitude(t: &mut Tape, hi: f64) -> f64 {
+    if t.chance(0.3) {
+        t.log_uniform(1e-5 * hi, hi)
+    } else {
+        t.uniform(0.0, hi)
+    }
+}
+
+fn signed_magnitude(t: &mut Tape, hi: f64) -> f64 {
+    let m = magnitude(t, hi);
+    if t.chance(0.5) {
+        -m
+    } else {
+        m
+    }
+}
+
 /// Condition inside the operating envelope of C01.
 pub fn gen_cond(t: &mut Tape, nstreams: usize) -> Cond {
     Cond {
-        alpha: tri(t, None, &[Some(0.0), Some(0.8)], |t| Some(t.uniform(0.0, 0.8))),
-        beta: tri(t, 0.0, &[0.8, 0.0], |t| t.uniform(0.0, 0.8)),
-        gv_weight: (0..nstreams).map(|_| tri(t, None, &[Some(0.0), Some(2.0)], |t| Some(t.uniform(0.0, 2.0)))).collect(),
+        alpha: tri(t, None, &[Some(0.0), Some(0.8)], |t| Some(magnitude(t, 0.8))),
+        beta: tri(t, 0.0, &[0.8, 0.0], |t| magnitude(t, 0.8)),
+        gv_weight: (0..nstreams).map(|_| tri(t, None, &[Some(0.0), Some(2.0)], |t| Some(magnitude(t, 2.0)))).collect(),
         msd_threshold: (0..nstreams).map(|_| tri(t, None, &[Some(0.0), Some(1.0)], |t| Some(t.uniform(0.0, 1.0)))).collect(),
-        half_tone: tri(t, 0.0, &[-24.0, 24.0], |t| t.uniform(-24.0, 24.0)),
-        volume_db: tri(t, 0.0, &[-20.0, 20.0], |t| t.uniform(-20.0, 20.0)),
+        half_tone: tri(t, 0.0, &[-24.0, 24.0], |t| signed_magnitude(t, 24.0)),
+        volume_db: tri(t, 0.0, &[-20.0, 20.0], |t| signed_magnitude(t, 20.0)),
         speed: tri(t, 1.0, &[0.25, 4.0], |t| t.log_uniform(0.25, 4.0)),
         rate: tri(t, None, &[Some(8000), Some(96000)], |t| Some(*t.pick(&[16000usize, 22050, 44100, 48000, 8000, 96000]))),
         fperiod: tri(t, None, &[Some(1), Some(480)], |t| Some(t.urange(1, 480))),
